@@ -68,6 +68,27 @@ def timedOutAt (c : CState Nat) : Option Nat :=
   | .done .timedOut t => some t
   | _ => none
 
+/-- Each arriving message is handed to AT MOST ONE caller (arrival ticks distinct): over all
+callers, the consumed arrivals never repeat and are arrivals of the history.  Together with
+`c18_no_cross_talk` this is the whole mechanism of the loss refuted below: a response consumed by a
+caller it is not addressed to is discarded there and can reach nobody else. -/
+theorem c18_each_message_consumed_once (R : Int → Bool) (P fuel : Nat) (callers : List (Caller × Nat))
+    (hist : List (Nat × In α)) (hd : (hist.map (·.1)).Nodup) :
+    (allGot (sim R P fuel (initState P callers) hist)).Nodup
+    ∧ ∀ a ∈ allGot (sim R P fuel (initState P callers) hist), a ∈ hist.map (·.1) := by
+  have h0 : allGot (initState (α := α) P callers) = [] := by
+    induction callers with
+    | nil => rfl
+    | cons c cs ih => simpa [allGot, initState] using ih
+  obtain ⟨h1, h2⟩ := sim_consumed_once R P fuel (initState P callers) hist (by rw [h0]; simpa using hd)
+  refine ⟨h1, fun a ha => ?_⟩
+  rcases h2 a ha with h | h
+  · rw [h0] at h; cases h
+  · exact h
+
+/-- in the witness below every message was consumed exactly once — by the WRONG caller -/
+example : allGot (sim (fun _ => true) 512 40 (initState 512 wCallers) wHist) = [17, 18] := by decide
+
 /-- (b) refuted: both responses were sent in time (ticks 17 and 18, deadlines 2304 and 2305),
 each was consumed and discarded by the other waiter, both callers time out. -/
 theorem c18_lost_response_witness :
